@@ -23,7 +23,7 @@ from ..model import AnalysisError
 from ..x_syncnorm import normalized
 
 NORM_MODULES = ("tornado/locks.py", "tornado/queues.py", "tornado/gen.py", "tornado/concurrent.py", "tornado/ioloop.py", "tornado/platform/asyncio.py")
-from ..x_sync import check_outcome_reads, in_cycle, check_none_tests, own_walk, guard_models, aug_delta, node_counts, method_call_on, container_uses, exit_states, own_find, own_settle_sites
+from ..x_sync import with_nullness, check_outcome_reads, in_cycle, check_none_tests, own_walk, guard_models, aug_delta, node_counts, method_call_on, container_uses, exit_states, own_find, own_settle_sites
 from .c34 import _while_to_if
 from .c33 import check_timeout_cb, _is_grant, _grant_target, _grant_value, _drop_done_test, _rename_attr, _cmp_op
 
@@ -434,14 +434,27 @@ def check_nowait(ck):
     ss = own_settle_sites(fi)
     si = node_counts(fi, lambda x: any(x is s[1] for s in ss))
 
+    # value: (stored, taken, getters popped, settled, counted, cleared, not-full known, stored-while-possibly-full)
     def tr(nd, v):
         a = ac.get(nd.id, (0, 0, 0))
-        return (min(2, v[0] + a[0]), min(2, v[1] + gi.get(nd.id, 0)), min(2, v[2] + po.get(nd.id, 0)), min(2, v[3] + si.get(nd.id, 0)), min(2, v[4] + a[1]), min(2, v[5] + a[2]))
+        bad = v[7] or (a[0] > 0 and v[2] == 0 and not v[6])
+        return (min(2, v[0] + a[0]), min(2, v[1] + gi.get(nd.id, 0)), min(2, v[2] + po.get(nd.id, 0)), min(2, v[3] + si.get(nd.id, 0)), min(2, v[4] + a[1]), min(2, v[5] + a[2]), v[6], bad)
 
-    Z = (0, 0, 0, 0, 0, 0)
-    normal, _ = exit_states(cfg, Z, tr)
+    def ed(nd, kind, v):
+        if nd.kind == "test" and kind in ("true", "false"):
+            t, pol = canon_fact(nd.ast, kind == "true")
+            if t == "self.full()" and not pol:
+                v = v[:6] + (True, v[7])
+        return v
+
+    Z = (0, 0, 0, 0, 0, 0, False, False)
+    Zn, trn, edn = with_nullness(Z, tr, ed)
+    normal, _ = exit_states(cfg, Zn, trn, edge_transfer=edn)
+    normal = sorted({(f_, v_[0]) for f_, v_ in normal}, key=repr)
     ck.floor("C35.put-nowait", len(normal), 2, "normal exit states of put_nowait")
-    for _f, v in normal:
+    for _f, vv in normal:
+        v = vv[:6]
+        ck.ob("C35.put-nowait", fi, fi.node, not vv[7], "an item is stored without handing one to a getter only when the queue is known not full (never more than maxsize items)", construct="exit stored-while-possibly-full=%s" % vv[7])
         shape = v[:4]
         ok = shape in ((1, 0, 0, 0), (1, 1, 1, 1), (0, 0, 1, 1)) and v[4] == 1 and v[5] >= 1
         ck.ob("C35.put-nowait", fi, fi.node, ok,
@@ -452,18 +465,15 @@ def check_nowait(ck):
     facts = must_facts(cfg)
     # raise QueueFull: nothing stored before
     from ..cfg import explore
-    seen = explore(cfg, Z, tr, lambda t: False, follow_exc=False)
+    seen = explore(cfg, Zn, trn, lambda t: False, edge_transfer=edn, follow_exc=False)
     raises = [nd for nd in cfg.stmt_nodes(lambda nd: nd.kind == "stmt" and isinstance(nd.ast, ast.Raise))]
     ck.ob("C35.put-nowait", fi, fi.node, len(raises) >= 1, "put_nowait has a reachable QueueFull path", construct="raises QueueFull")
     for nd in raises:
         for _f, v in sorted(seen.get(nd.id, ()), key=repr):
-            ck.ob("C35.put-nowait", fi, nd.ast, v == Z, "QueueFull is raised before anything was stored, counted or anyone was woken")
+            ck.ob("C35.put-nowait", fi, nd.ast, v[0][:6] == Z[:6], "QueueFull is raised before anything was stored, counted or anyone was woken")
         ck.ob("C35.put-nowait", fi, nd.ast, holds(facts[nd.id], "self.full()", True) and (q.dotted(nd.ast.exc.func if isinstance(nd.ast.exc, ast.Call) else nd.ast.exc) == "QueueFull"), "QueueFull is raised only when full()")
     # direct store only when not full; hand-over only when a getter waits; store precedes take
     stored = event_facts(fi, {"stored": lambda nd: nd.id in pi}, cond_facts=False)
-    for nd, c in _store_sites(fi):
-        has_pop_before = any(cfg.dominates(p, nd) for p, _, _ in pops)
-        ck.ob("C35.put-nowait", fi, c, has_pop_before or holds(facts[nd.id], "self.full()", False), "an item is stored directly only when the queue is not full (never more than maxsize items)")
     for nd, c in own_find(fi, lambda x: method_call_on(x, "self", "_get")):
         ck.ob("C35.put-nowait", fi, c, ("@stored", True) in stored[nd.id], "the item handed to a getter is taken after the new item was stored")
     for nd, c, names in pops:
@@ -484,13 +494,27 @@ def check_nowait(ck):
     ss = own_settle_sites(fi)
     si = node_counts(fi, lambda x: any(x is s[1] for s in ss))
 
+    # value: (stored, taken, putters popped, settled, counted, cleared, non-empty known, taken-from-possibly-empty)
     def tr(nd, v):
         a = ac.get(nd.id, (0, 0, 0))
-        return (min(2, v[0] + a[0]), min(2, v[1] + gi.get(nd.id, 0)), min(2, v[2] + po.get(nd.id, 0)), min(2, v[3] + si.get(nd.id, 0)), min(2, v[4] + a[1]), min(2, v[5] + a[2]))
+        g = gi.get(nd.id, 0)
+        bad = v[7] or (g > 0 and v[0] + a[0] == 0 and not v[6])
+        return (min(2, v[0] + a[0]), min(2, v[1] + g), min(2, v[2] + po.get(nd.id, 0)), min(2, v[3] + si.get(nd.id, 0)), min(2, v[4] + a[1]), min(2, v[5] + a[2]), v[6], bad)
 
-    normal, _ = exit_states(cfg, Z, tr)
+    def ed(nd, kind, v):
+        if nd.kind == "test" and kind in ("true", "false"):
+            t, pol = canon_fact(nd.ast, kind == "true")
+            if (t in ("self.qsize()", QUEUE) and pol) or (t == "self.empty()" and not pol) or (t in ("self.qsize() > 0", "len(self._queue)") and pol):
+                v = v[:6] + (True, v[7])
+        return v
+
+    Zn, trn, edn = with_nullness(Z, tr, ed)
+    normal, _ = exit_states(cfg, Zn, trn, edge_transfer=edn)
+    normal = sorted({(f_, v_[0]) for f_, v_ in normal}, key=repr)
     ck.floor("C35.get-nowait", len(normal), 2, "normal exit states of get_nowait")
-    for _f, v in normal:
+    for _f, vv in normal:
+        v = vv[:6]
+        ck.ob("C35.get-nowait", fi, fi.node, not vv[7], "an item is taken only after a waiting putter's item was stored or from a queue known to be non-empty", construct="exit taken-from-possibly-empty=%s" % vv[7])
         ok = (v[:5] == (0, 1, 0, 0, 0)) or (v[:5] == (1, 1, 1, 1, 1) and v[5] >= 1)
         ck.ob("C35.get-nowait", fi, fi.node, ok, "get_nowait takes exactly one item; if a putter waited, its item is stored and counted and it is woken, exactly once (stored=%d taken=%d putters=%d settled=%d counted=%d cleared=%d)" % v,
               construct="exit stored=%d taken=%d putters=%d settled=%d counted=%d cleared=%d" % v)
@@ -508,15 +532,12 @@ def check_nowait(ck):
     rets = [nd for nd in cfg.stmt_nodes(lambda nd: nd.kind == "stmt" and isinstance(nd.ast, ast.Return))]
     for nd in rets:
         ck.ob("C35.get-nowait", fi, nd.ast, method_call_on(nd.ast.value, "self", "_get"), "get_nowait returns the item removed by _get()")
-        if not any(cfg.dominates(p, nd) for p, _, _ in pops):
-            ms = holds(facts[nd.id], "self.qsize()", True) or holds(facts[nd.id], "self.empty()", False) or holds(facts[nd.id], QUEUE, True)
-            ck.ob("C35.get-nowait", fi, nd.ast, ms, "without a waiting putter an item is taken only from a non-empty queue")
     raises = [nd for nd in cfg.stmt_nodes(lambda nd: nd.kind == "stmt" and isinstance(nd.ast, ast.Raise))]
     ck.ob("C35.get-nowait", fi, fi.node, len(raises) >= 1, "get_nowait has a reachable QueueEmpty path", construct="raises QueueEmpty")
-    seen = explore(cfg, Z, tr, lambda t: False, follow_exc=False)
+    seen = explore(cfg, Zn, trn, lambda t: False, edge_transfer=edn, follow_exc=False)
     for nd in raises:
         for _f, v in sorted(seen.get(nd.id, ()), key=repr):
-            ck.ob("C35.get-nowait", fi, nd.ast, v == Z and q.dotted(nd.ast.exc.func if isinstance(nd.ast.exc, ast.Call) else nd.ast.exc) == "QueueEmpty", "QueueEmpty is raised before anything was taken or anyone was woken")
+            ck.ob("C35.get-nowait", fi, nd.ast, v[0][:6] == Z[:6] and q.dotted(nd.ast.exc.func if isinstance(nd.ast.exc, ast.Call) else nd.ast.exc) == "QueueEmpty", "QueueEmpty is raised before anything was taken or anyone was woken")
     putter_names = {nm for _, _, names in pops for nm in names}
     check_settles(ck, "C35.settle", fi, allow_safe_unguarded=False, extra_ok=_consumed_extra_ok(fi, putter_names))
 
